@@ -416,6 +416,27 @@ def rule_SL(ctx, tier):
     else:
         rr.fail("report:slots", "Watcher::add_appointment does not return the balance computed by add_update_appointment", where=a.span)
     rr.require_floor(13, "SL instances")
+    # "ceil(blob length / 2048) each, never less than one": the slot function is clamped from below, and "nothing stored for
+    # this uuid" (None) is told apart from "stored with length 0" when the size already paid for is worked out
+    cs = P.bodies.get("teos_common::appointment::compute_appointment_slots")
+    if cs is None:
+        rr.anchor_missing("teos_common::appointment::compute_appointment_slots")
+    else:
+        rt = og.strip(ctx.og.local(cs, 0))
+        shown = og.show(rt)
+        floor = any(isinstance(x, tuple) and x and x[0] == "call" and x[1].split("::")[-1] == "max" and any(isinstance(y, tuple) and y and y[0] == "const" and y[1] == 1 for y in x[2]) for x in og.walk(rt))
+        ceil_div = "ceil" in shown and "Div(" in shown
+        if floor and ceil_div:
+            rr.ok("slots(len) = max(ceil(len / slot size), 1)", sample={"rule": "SL", "compute_appointment_slots": shown[:160]})
+        elif not ceil_div:
+            rr.fail("slot-formula", "compute_appointment_slots is `%s`, not a ceiling division" % shown[:120], where=cs.span)
+        else:
+            rr.fail("slot-floor", "compute_appointment_slots is `%s`: an empty blob takes 0 slots, so it is held for free (the statement says ceil(len/2048), never less than one)" % shown[:120], where=cs.span)
+        ch = P.require(GK + "add_update_appointment")
+        for bb in sites(ch, "teos_common::appointment::compute_appointment_slots"):
+            a0 = arg_origin(ctx, ch, bb, 0)
+            if has_call(a0, "DBM::get_appointment_length") and has_call(a0, "unwrap_or") and floor:
+                rr.fail("stored-none-as-zero-length", "the size already paid for is `%s`: with the lower clamp a uuid with nothing stored would count as one slot already paid" % og.show(a0)[:100], where=ch.line_of(bb))
     return rr
 
 
